@@ -10,6 +10,7 @@ import FinamModel.Translated.TimeCachingAdapter__get_data_next
 import FinamModel.Translated.TimeCachingAdapter__get_data_prev
 import FinamModel.Translated.TimeCachingAdapter__get_data_linear
 import FinamModel.Translated.TimeCachingAdapter__get_data_step
+import FinamModel.Translated.TimeCachingAdapter__source_updated
 /-
   Equivalence of the translated `_interpolate` bodies / eviction loop of the time-caching adapters
   (regenerated from `finam/adapters/time.py`) with the hand-written model `TA.*` of the C11 theorems.
@@ -270,8 +271,8 @@ theorem tr_TimeCachingAdapter__get_data_step (d : List (Int × Rat)) (pos : Rat)
 
 /-! ### C11 on the regenerated code
 
-A time-caching adapter whose requests are answered by the *translated* `_get_data` of its kind (notifications append
-to the buffer, as `_source_updated` does). -/
+A time-caching adapter whose requests are answered by the *translated* `_get_data` of its kind and whose notifications
+go through the *translated* `_source_updated` (the value pulled from the source at the notification is a parameter). -/
 
 def codeGet (k : TA.Kind) (buf : List (Int × Rat)) (t : Int) : Except Err (Rat × List (Int × Rat)) :=
   match k with
@@ -280,8 +281,16 @@ def codeGet (k : TA.Kind) (buf : List (Int × Rat)) (t : Int) : Except Err (Rat 
   | .linear => Tr.TimeCachingAdapter__get_data_linear buf t
   | .step pos => Tr.TimeCachingAdapter__get_data_step buf pos t
 
+/-- **`TimeCachingAdapter._source_updated`**: the data pulled at the notification is appended with its time -/
+theorem tr_TimeCachingAdapter__source_updated {α} (buf : List (Int × α)) (t : Int) (v : α) :
+    Tr.TimeCachingAdapter__source_updated buf t v = .ok (buf ++ [(t, v)]) := by
+  simp [Tr.TimeCachingAdapter__source_updated, pure, Except.pure]
+
 def codeStepTA (k : TA.Kind) (buf : List (Int × Rat)) : TA.Ev → List (Int × Rat) × Option (Except Err Rat)
-  | .push t v => (buf ++ [(t, v)], none)
+  | .push t v =>
+    match Tr.TimeCachingAdapter__source_updated buf t v with
+    | .ok buf' => (buf', none)
+    | .error _ => (buf, none)
   | .pull t =>
     match codeGet k buf t with
     | .ok (v, buf') => (buf', some (.ok v))
@@ -304,6 +313,7 @@ theorem code_step_sim_ta (k : TA.Kind) (buf : List (Int × Rat)) (s : TA.AState)
     (codeStepTA k buf ev).2 = (TA.stepImpl k s ev).2 ∧ toE (codeStepTA k buf ev).1 = (TA.stepImpl k s ev).1.buf := by
   cases ev with
   | push t v =>
+    simp only [codeStepTA, tr_TimeCachingAdapter__source_updated]
     refine ⟨rfl, ?_⟩
     show toE (buf ++ [(t, v)]) = s.buf ++ [⟨t, v⟩]
     simp [toE, ← hb]
